@@ -28,6 +28,7 @@ const ND: u8 = 6; // hand-written Clone, no drop glue
 const ZB: u8 = 7; // zero-sized key and value
 const TG: u8 = 8; // plain Copy data, equal keys distinguishable by a tag
 const ZD: u8 = 10; // zero-sized key and value with drop glue (ownership by counting)
+const FT: u8 = 11; // tagged plain data with a 72-byte key and an 80-byte value
 const PA: u8 = 9; // PathBuf keys, unsized borrowed form Path (equal queries of different lengths)
 
 pub fn campaigns(p: Prop) -> Vec<Campaign> {
@@ -44,7 +45,7 @@ pub fn campaigns(p: Prop) -> Vec<Campaign> {
     let cl = |name, engine, kinds| Campaign { name, engine, kinds, max_ops: 400, cases: (16, 500), caps: Some(&[1, 2, 3, 4, 5]), fault: false };
     use Engine::*;
     match p {
-        Prop::C01 => vec![c("map-histories", MapHist, &[T, T, T, P, P, STR, ZK, ZV, ND, ZB, TG, PA, L, ZD], 40, (2500, 150_000)), cb("map-big", MapHist, &[T, T, P], 30, (100, 4000)), cw((25, 1000)), cl("map-long-histories", MapHist, &[T, T, P]), cs((300, 12_000))],
+        Prop::C01 => vec![c("map-histories", MapHist, &[T, T, T, P, P, STR, ZK, ZV, ND, ZB, TG, PA, L, ZD, FT], 40, (2500, 150_000)), cb("map-big", MapHist, &[T, T, P], 30, (100, 4000)), cw((25, 1000)), cl("map-long-histories", MapHist, &[T, T, P]), cs((300, 12_000))],
         Prop::C02 => vec![c("map-ownership", MapHist, &[T, T, T, T, ZD], 40, (2000, 100_000)), c("set-ownership", SetHist, &[T, T, T, T, ZD], 40, (1200, 60_000)), cb("map-big", MapHist, &[T], 30, (100, 4000)), cb("set-big", SetHist, &[T], 30, (60, 2500)), cl("map-long-histories", MapHist, &[T, T, P]), cl("set-long-histories", SetHist, &[T, T, P])],
         Prop::C03 => vec![
             c("map-overflow", MapHist, &[T, T, T, P, P, L, L, STR, ZK, ZV, ZD], 24, (2000, 80_000)),
@@ -55,7 +56,7 @@ pub fn campaigns(p: Prop) -> Vec<Campaign> {
         ],
         Prop::C05 => vec![Campaign { name: "map-invariants-under-user-panics", engine: MapHist, kinds: &[T, T, P, ND], max_ops: 10, cases: (50, 2000), caps: Some(&[0, 1, 2, 3, 4, 5]), fault: true }, Campaign { name: "set-invariants-under-user-panics", engine: SetHist, kinds: &[T, P, ND], max_ops: 10, cases: (30, 1200), caps: Some(&[0, 1, 2, 3, 4, 5]), fault: true }, c("map-invariants", MapHist, &[T, T, P, STR, ZK, ZV, ZB, PA, L, ZD], 40, (2000, 100_000)), c("set-invariants", SetHist, &[T, T, P, P, ZK, ZD], 40, (1200, 60_000)), cb("map-big", MapHist, &[T, P], 30, (100, 4000)), cb("set-big", SetHist, &[T, P], 30, (60, 2500)), cw((25, 1000)), cl("map-long-histories", MapHist, &[T, T, P]), cl("set-long-histories", SetHist, &[T, T, P]), cs((300, 12_000))],
         Prop::C06 => vec![
-            c("map-noalloc", MapHist, &[P, P, P, L, ZK, ZV, ND, ZB], 40, (1500, 60_000)),
+            c("map-noalloc", MapHist, &[P, P, P, L, ZK, ZV, ND, ZB, FT], 40, (1500, 60_000)),
             c("set-noalloc", SetHist, &[P, P, ND, ZK], 40, (1000, 40_000)),
             c("alg-noalloc", SetAlg, &[P], 24, (800, 30_000)),
             cb("map-big-noalloc", MapHist, &[P, ND], 30, (80, 3000)),
@@ -63,18 +64,18 @@ pub fn campaigns(p: Prop) -> Vec<Campaign> {
             cw((25, 1000)),
             cs((300, 12_000)),
         ],
-        Prop::C07 => vec![c("set-histories", SetHist, &[T, T, T, P, P, STR, ZK, ND, TG, PA, ZD], 40, (2500, 150_000)), cb("set-big", SetHist, &[T, T, P], 30, (100, 4000)), cw((25, 1000)), cl("set-long-histories", SetHist, &[T, T, P]), cs((300, 12_000))],
+        Prop::C07 => vec![c("set-histories", SetHist, &[T, T, T, P, P, STR, ZK, ND, TG, PA, ZD, FT], 40, (2500, 150_000)), cb("set-big", SetHist, &[T, T, P], 30, (100, 4000)), cw((25, 1000)), cl("set-long-histories", SetHist, &[T, T, P]), cs((300, 12_000))],
         Prop::C08 => vec![c("set-algebra", SetAlg, &[T, T, P], 28, (1500, 60_000)), cs((300, 12_000)), cw((25, 1000))],
         Prop::C09 => vec![c("map-walks", MapHist, &[T, T, T, P, P, STR, ZK, ZV, ZB, L, ZD], 40, (2000, 80_000)), c("set-walks", SetHist, &[T, T, P, P, ZK, ZD], 40, (1000, 40_000)), cb("map-big", MapHist, &[T, P], 24, (80, 3000)), cw((25, 1000)), cl("map-long-histories", MapHist, &[T, T, P])],
-        Prop::C10 => vec![c("map-consume", MapHist, &[T, T, T, P, P, STR, ZK, ZV, ZB, TG, L, ZD], 40, (2000, 80_000)), c("set-consume", SetHist, &[T, T, P, P, ZK, ZD], 40, (1000, 40_000)), cb("map-big", MapHist, &[T, P], 24, (80, 3000)), cw((25, 1000)), cl("map-long-histories", MapHist, &[T, T, P])],
-        Prop::C11 => vec![Campaign { name: "entry-closures-that-panic", engine: MapHist, kinds: &[T, T, P], max_ops: 8, cases: (40, 1500), caps: Some(&[0, 1, 2, 3, 4, 5]), fault: true }, c("entry", MapHist, &[T, T, T, P, P, STR, ZV, ZB, TG, L, ZD], 40, (2500, 120_000)), cb("map-big", MapHist, &[T, P], 30, (80, 3000)), cl("map-long-histories", MapHist, &[T, T, P])],
-        Prop::C12 => vec![c("map-key-identity", MapHist, &[T, T, TG], 40, (2000, 100_000)), c("set-key-identity", SetHist, &[T, T, TG], 40, (1200, 60_000)), cb("map-big", MapHist, &[T], 30, (80, 3000)), cb("set-big", SetHist, &[T], 30, (60, 2500)), cl("map-long-histories", MapHist, &[T, T, P]), cl("set-long-histories", SetHist, &[T, T, P]), cs((300, 12_000))],
+        Prop::C10 => vec![c("map-consume", MapHist, &[T, T, T, P, P, STR, ZK, ZV, ZB, TG, L, ZD, FT], 40, (2000, 80_000)), c("set-consume", SetHist, &[T, T, P, P, ZK, ZD], 40, (1000, 40_000)), cb("map-big", MapHist, &[T, P], 24, (80, 3000)), cw((25, 1000)), cl("map-long-histories", MapHist, &[T, T, P])],
+        Prop::C11 => vec![Campaign { name: "entry-closures-that-panic", engine: MapHist, kinds: &[T, T, P], max_ops: 8, cases: (40, 1500), caps: Some(&[0, 1, 2, 3, 4, 5]), fault: true }, c("entry", MapHist, &[T, T, T, P, P, STR, ZV, ZB, TG, L, ZD, FT], 40, (2500, 120_000)), cb("map-big", MapHist, &[T, P], 30, (80, 3000)), cl("map-long-histories", MapHist, &[T, T, P])],
+        Prop::C12 => vec![c("map-key-identity", MapHist, &[T, T, TG, FT], 40, (2000, 100_000)), c("set-key-identity", SetHist, &[T, T, TG, FT], 40, (1200, 60_000)), cb("map-big", MapHist, &[T], 30, (80, 3000)), cb("set-big", SetHist, &[T], 30, (60, 2500)), cl("map-long-histories", MapHist, &[T, T, P]), cl("set-long-histories", SetHist, &[T, T, P]), cs((300, 12_000))],
         Prop::C13 => vec![c("disjoint", MapHist, &[T, T, STR, P, PA, PA, L], 30, (1500, 60_000)), cb("map-big", MapHist, &[T, T, P], 24, (80, 3000)), cw((25, 1000)), cs((300, 12_000))],
         Prop::C14 => vec![c("map-equality", MapEq, &[T, P], 24, (2000, 100_000)), c("set-equality", SetAlg, &[T, P], 24, (1000, 50_000)), c("map-equality-histories", MapHist, &[T, T, P], 30, (600, 30_000)), cb("map-equality-big", MapHist, &[T, P], 24, (100, 4000)), cw((25, 1000)), cs((300, 12_000))],
-        Prop::C15 => vec![c("map-clone", MapHist, &[T, T, T, ND, ND, P, ZB, ZK, L, ZD], 40, (2000, 100_000)), c("set-clone", SetHist, &[T, T, T, ND, ND, ZK, ZD], 40, (1000, 50_000)), cb("map-big", MapHist, &[T, ND], 24, (60, 2500)), cw((25, 1000)), cl("map-long-histories", MapHist, &[T, T, P])],
-        Prop::C16 => vec![c("map-bulk", MapHist, &[T, T, P, TG, L, ZD], 12, (2500, 120_000)), c("set-bulk", SetHist, &[T, T, P, TG, ZD], 12, (2000, 100_000)), cb("map-big", MapHist, &[T, P], 8, (60, 2500)), cb("set-big", SetHist, &[T, P], 8, (60, 2500))],
+        Prop::C15 => vec![c("map-clone", MapHist, &[T, T, T, ND, ND, P, ZB, ZK, L, ZD, FT], 40, (2000, 100_000)), c("set-clone", SetHist, &[T, T, T, ND, ND, ZK, ZD], 40, (1000, 50_000)), cb("map-big", MapHist, &[T, ND], 24, (60, 2500)), cw((25, 1000)), cl("map-long-histories", MapHist, &[T, T, P])],
+        Prop::C16 => vec![c("map-bulk", MapHist, &[T, T, P, TG, L, ZD, FT], 12, (2500, 120_000)), c("set-bulk", SetHist, &[T, T, P, TG, ZD, FT], 12, (2000, 100_000)), cb("map-big", MapHist, &[T, P], 8, (60, 2500)), cb("set-big", SetHist, &[T, P], 8, (60, 2500))],
         Prop::C17 => vec![c("map-liar", MapHist, &[T], 40, (2500, 150_000)), c("set-liar", SetHist, &[T], 40, (1500, 80_000)), c("alg-liar", SetAlg, &[T], 24, (800, 40_000)), cb("map-big", MapHist, &[T], 30, (80, 3000))],
-        Prop::C18 => vec![c("unchecked-lockstep", MapHist, &[T, T, P, STR, TG, ND, PA, L, ZD], 40, (2500, 150_000)), cb("map-big", MapHist, &[T, T, P], 30, (100, 4000)), cl("map-long-histories", MapHist, &[T, T, P])],
+        Prop::C18 => vec![c("unchecked-lockstep", MapHist, &[T, T, P, STR, TG, ND, PA, L, ZD, FT], 40, (2500, 150_000)), cb("map-big", MapHist, &[T, T, P], 30, (100, 4000)), cl("map-long-histories", MapHist, &[T, T, P])],
         Prop::C19 => vec![c("map-fmt", MapHist, &[T, P, P, STR, STR, L, ZK, ZV, ZV, ZB, ZD], 30, (1500, 60_000)), c("set-fmt", SetHist, &[T, P, STR, ZK], 30, (1000, 40_000)), c("alg-fmt", SetAlg, &[P, STR], 20, (600, 30_000)), cb("map-big", MapHist, &[P, T], 16, (40, 1500)), cs((300, 12_000))],
         Prop::C20 => vec![],
     }
